@@ -1078,6 +1078,107 @@ fn events(font: &FontRef, gid: u32, fmt: ColorGlyphFormat, loc: &[F2Dot14], gmap
     Some(s)
 }
 
+
+// ---------------------------------------------------------------------------------------------
+// the paint tree of a glyph / layer as read-fonts resolves it (rendered like the model's `Tree.render`)
+// ---------------------------------------------------------------------------------------------
+
+fn paint_size(fmt: u8) -> usize {
+    match fmt {
+        1 => 6,
+        2 => 5,
+        3 => 9,
+        4 | 6 => 16,
+        5 | 7 => 20,
+        8 => 12,
+        9 => 16,
+        10 => 6,
+        11 => 3,
+        12 | 13 => 7,
+        14 | 16 | 28 => 8,
+        15 | 17 | 29 => 12,
+        18 | 30 => 12,
+        19 | 31 => 16,
+        20 | 24 => 6,
+        21 | 25 => 10,
+        22 | 26 => 10,
+        23 | 27 => 14,
+        32 => 8,
+        _ => 0,
+    }
+}
+
+fn tree_of(p: &read_fonts::tables::colr::Paint, depth: usize) -> Option<String> {
+    use read_fonts::tables::colr::Paint;
+    if depth > 200 {
+        return None;
+    }
+    let fmt = p.format();
+    let size = paint_size(fmt);
+    let raw = p.offset_data().as_bytes();
+    let mut bytes = raw.get(..size)?.to_vec();
+    let line = |d: &[u8], stop: usize| -> Option<Vec<u8>> {
+        let n = u16::from_be_bytes([*d.get(1)?, *d.get(2)?]) as usize;
+        d.get(..3 + n * stop).map(|x| x.to_vec())
+    };
+    // (offset positions to mask, blob bytes, child paints)
+    let (mask, blob, kids): (Vec<usize>, Vec<u8>, Vec<Paint>) = match p {
+        Paint::ColrLayers(_) | Paint::Solid(_) | Paint::VarSolid(_) | Paint::ColrGlyph(_) => (vec![], vec![], vec![]),
+        Paint::LinearGradient(t) => (vec![1], line(t.color_line().ok()?.offset_data().as_bytes(), 6)?, vec![]),
+        Paint::RadialGradient(t) => (vec![1], line(t.color_line().ok()?.offset_data().as_bytes(), 6)?, vec![]),
+        Paint::SweepGradient(t) => (vec![1], line(t.color_line().ok()?.offset_data().as_bytes(), 6)?, vec![]),
+        Paint::VarLinearGradient(t) => (vec![1], line(t.color_line().ok()?.offset_data().as_bytes(), 10)?, vec![]),
+        Paint::VarRadialGradient(t) => (vec![1], line(t.color_line().ok()?.offset_data().as_bytes(), 10)?, vec![]),
+        Paint::VarSweepGradient(t) => (vec![1], line(t.color_line().ok()?.offset_data().as_bytes(), 10)?, vec![]),
+        Paint::Glyph(t) => (vec![1], vec![], vec![t.paint().ok()?]),
+        Paint::Transform(t) => (vec![1, 4], t.transform().ok()?.offset_data().as_bytes().get(..24)?.to_vec(), vec![t.paint().ok()?]),
+        Paint::VarTransform(t) => (vec![1, 4], t.transform().ok()?.offset_data().as_bytes().get(..28)?.to_vec(), vec![t.paint().ok()?]),
+        Paint::Translate(t) => (vec![1], vec![], vec![t.paint().ok()?]),
+        Paint::VarTranslate(t) => (vec![1], vec![], vec![t.paint().ok()?]),
+        Paint::Scale(t) => (vec![1], vec![], vec![t.paint().ok()?]),
+        Paint::VarScale(t) => (vec![1], vec![], vec![t.paint().ok()?]),
+        Paint::ScaleAroundCenter(t) => (vec![1], vec![], vec![t.paint().ok()?]),
+        Paint::VarScaleAroundCenter(t) => (vec![1], vec![], vec![t.paint().ok()?]),
+        Paint::ScaleUniform(t) => (vec![1], vec![], vec![t.paint().ok()?]),
+        Paint::VarScaleUniform(t) => (vec![1], vec![], vec![t.paint().ok()?]),
+        Paint::ScaleUniformAroundCenter(t) => (vec![1], vec![], vec![t.paint().ok()?]),
+        Paint::VarScaleUniformAroundCenter(t) => (vec![1], vec![], vec![t.paint().ok()?]),
+        Paint::Rotate(t) => (vec![1], vec![], vec![t.paint().ok()?]),
+        Paint::VarRotate(t) => (vec![1], vec![], vec![t.paint().ok()?]),
+        Paint::RotateAroundCenter(t) => (vec![1], vec![], vec![t.paint().ok()?]),
+        Paint::VarRotateAroundCenter(t) => (vec![1], vec![], vec![t.paint().ok()?]),
+        Paint::Skew(t) => (vec![1], vec![], vec![t.paint().ok()?]),
+        Paint::VarSkew(t) => (vec![1], vec![], vec![t.paint().ok()?]),
+        Paint::SkewAroundCenter(t) => (vec![1], vec![], vec![t.paint().ok()?]),
+        Paint::VarSkewAroundCenter(t) => (vec![1], vec![], vec![t.paint().ok()?]),
+        Paint::Composite(t) => (vec![1, 5], vec![], vec![t.source_paint().ok()?, t.backdrop_paint().ok()?]),
+    };
+    for m in mask {
+        bytes[m] = 0;
+        bytes[m + 1] = 0;
+        bytes[m + 2] = 0;
+    }
+    let mut out = format!("({}[{}]", hex(&bytes), hex(&blob));
+    for k in &kids {
+        out.push_str(&tree_of(k, depth + 1)?);
+    }
+    out.push(')');
+    Some(out)
+}
+
+/// the tree of the COLRv1 base glyph `gid` (`v1_base_glyph`) or of layer `idx` (`v1_layer`)
+fn glyph_tree(colr: &read_fonts::tables::colr::Colr, is_layer: bool, n: u32) -> String {
+    let paint = if is_layer {
+        colr.v1_layer(n as usize).ok().map(|x| x.0)
+    } else {
+        colr.v1_base_glyph(GlyphId::new(n)).ok().flatten().map(|x| x.0)
+    };
+    match paint {
+        None => "none".into(),
+        Some(p) => tree_of(&p, 0).unwrap_or("none".into()),
+    }
+}
+
 // ---------------------------------------------------------------------------------------------
 // request lines
 // ---------------------------------------------------------------------------------------------
@@ -1096,6 +1197,19 @@ fn inner_str(im: &[Vec<u32>]) -> String {
         parts.extend(m.iter().map(|x| x.to_string()));
     }
     parts.join(" ")
+}
+
+fn plan_args(pv: &klippa::verif_hooks::PlanView, cv: &klippa::verif_hooks::PlanColrView) -> String {
+    format!(
+        "G {} M {} P {} L {} V {} I {} D {}",
+        join(&pv.glyphset_colred),
+        pairs(&pv.glyph_map),
+        pairs(&cv.colr_palettes),
+        pairs(&cv.colrv1_layers),
+        pairs(&cv.colr_varidx_delta_map.iter().map(|(k, (n, _))| (*k, *n)).collect::<Vec<_>>()),
+        inner_str(&cv.colr_varstore_inner_maps),
+        pairs(&cv.colr_new_deltaset_idx_varidx_map),
+    )
 }
 
 fn colr_request(colr: &[u8], pv: &klippa::verif_hooks::PlanView, cv: &klippa::verif_hooks::PlanColrView) -> String {
@@ -1337,6 +1451,36 @@ fn run_request(s: &mut Session, label: &str, data: &[u8], req: &Req, trust: Trus
                 s.case("colr-table", colr_request(colr, &pv, &cv), real);
             }
             None => s.count("colr:skip:outcome-not-attributable"),
+        }
+    }
+    // ---- correspondence: the reader model's paint trees against read-fonts (original table), and the tree the
+    //      theorems promise (`expectTree` on the ORIGINAL + plan) against read-fonts on the SUBSET table
+    if let (Some(colr), true, Ok(oc)) = (colr_t, corr, font.colr()) {
+        let sub_colr = sub_font.and_then(|sub| FontRef::new(sub).ok()).and_then(|sf| sf.colr().ok().map(|c| c.offset_data().as_bytes().to_vec()));
+        let sc = sub_colr.as_ref().and_then(|d| <read_fonts::tables::colr::Colr as read_fonts::FontRead>::read(read_fonts::FontData::new(d)).ok());
+        let mut budget = 6;
+        for (old, new) in &pv.glyph_map {
+            if budget == 0 {
+                break;
+            }
+            if !pv.glyphset_colred.contains(old) || oc.v1_base_glyph(GlyphId::new(*old)).ok().flatten().is_none() {
+                continue;
+            }
+            budget -= 1;
+            s.case("colr-tree-reader", format!("c17.colr.tree {} G {old}", hex(colr)), glyph_tree(&oc, false, *old));
+            if let Some(sc) = &sc {
+                if sc.version() >= 1 {
+                    s.case("colr-tree-expect", format!("c17.colr.expect {} G {old} {}", hex(colr), plan_args(&pv, &cv)), glyph_tree(sc, false, *new));
+                }
+            }
+        }
+        for (old, new) in cv.colrv1_layers.iter().take(4) {
+            s.case("colr-tree-reader", format!("c17.colr.tree {} Y {old}", hex(colr)), glyph_tree(&oc, true, *old));
+            if let Some(sc) = &sc {
+                if sc.version() >= 1 {
+                    s.case("colr-tree-expect", format!("c17.colr.expect {} Y {old} {}", hex(colr), plan_args(&pv, &cv)), glyph_tree(sc, true, *new));
+                }
+            }
         }
     }
     // ---- correspondence: CPAL table
